@@ -334,3 +334,233 @@ def rule_ownership(ctx, m):
             for (rule, nid, ok, why) in found:
                 r.ob(f.sig, "%s: %s" % (rule, f.text(nid)[:70]), False, why, f.loc(nid))
     return r
+
+
+RECURSIVE = {"Qentem::Value", "Qentem::Array", "Qentem::HashTable", "Qentem::HArray", "Qentem::HList", "Qentem::QExpression"}
+RELEASE_PRIMS = {"Deallocate", "Dispose"}
+
+
+def class_release_methods(m, cls, family=()):
+    """member functions of cls that (through their own class) destroy or release what the object owns"""
+    fns = [f for f in m.functions if not f.inst and f.cls in (cls,) + tuple(family) and f.cfg]
+    names = set(f.name for f in fns)
+    direct, calls = {}, {}
+    for f in fns:
+        d = False
+        own = set()
+        for c in astq.calls(f):
+            nm = f.call_simple_name(c)
+            rc = f.call_receiver(c)
+            if nm in RELEASE_PRIMS:
+                d = True
+            elif rc is None or f.nodes[f.strip(rc)]["k"] == "CXXThisExpr":
+                if nm in names:
+                    own.add(nm)
+            else:
+                # a releasing operation on a member container of this object
+                rn = f.nodes[f.strip(rc)]
+                if rn["k"] in ("MemberExpr", "CXXDependentScopeMemberExpr") and nm in ("Reset", "Clear", "reset", "Drop", "Resize", "Compress"):
+                    base = rn.get("ch", [])
+                    if not base or f.nodes[f.strip(base[0])]["k"] in ("CXXThisExpr", "MemberExpr"):
+                        d = True
+        direct[f.name] = direct.get(f.name, False) or d
+        calls[f.name] = calls.get(f.name, set()) | own
+    rel = set(k for k, v in direct.items() if v)
+    changed = True
+    while changed:
+        changed = False
+        for k, own in calls.items():
+            if k not in rel and own & rel:
+                rel.add(k)
+                changed = True
+    return rel
+
+
+def rule_descendant(ctx, m):
+    """O12: an argument of the object's own type may be an element the object owns (v = v["child"], cache = Move(cache[0]...SubTags)).
+    Once the object has released what it owns, such an argument is gone: it must not be read afterwards."""
+    r = Rule("O12-descendant", "a same-type argument is not read after the object released what it owns (it may be a descendant)", floor=6)
+    fam = {"Qentem::HArray": ("Qentem::HashTable",), "Qentem::HList": ("Qentem::HashTable",)}
+    for cls in sorted(RECURSIVE):
+        rel = class_release_methods(m, cls, fam.get(cls, ()))
+        short = cls.split("::")[-1]
+        for f in m.functions:
+            if f.inst or f.cls != cls or not f.cfg or f.is_static or f.kind in ("ctor", "copyctor", "movector", "dtor"):
+                continue
+            # instances: the assignment operators of every recursive container (their own comments expect "a child array"), and
+            # every member of Value, whose elements are handed out as Value & by operator[]
+            if cls != "Qentem::Value" and f.name != "operator=":
+                continue
+            ps = [p for p in f.params if p.get("ref") and (short in p["t"].replace("const ", "").split("<")[0].split("::")[-1] or p["t"].replace("const ", "").strip().startswith(short))]
+            if not ps:
+                continue
+            for p in ps:
+                ctx.note_fn(f)
+                # forward may-analysis: has a releasing operation on *this happened?
+                blocks = f.blocks()
+                state = {f.cfg["entry"]: None}
+                work = [f.cfg["entry"]]
+                hits = []
+
+                def rel_event(e):
+                    if "n" not in e or e.get("k"):
+                        return None
+                    n = f.nodes[e["n"]]
+                    if n["k"] not in ("CallExpr", "CXXMemberCallExpr", "CXXOperatorCallExpr"):
+                        return None
+                    nm = f.call_simple_name(e["n"])
+                    rc = f.call_receiver(e["n"])
+                    if nm in RELEASE_PRIMS:
+                        a = f.call_args(e["n"])
+                        # releasing something reached from the argument itself does not count
+                        if a and any(f.nodes[x].get("n") == p["n"] for x in f.walk(a[0]) if f.nodes[x]["k"] == "DeclRefExpr"):
+                            return None
+                        return f.text(e["n"])
+                    if (rc is None or f.nodes[f.strip(rc)]["k"] == "CXXThisExpr") and nm in rel and n["k"] != "CXXOperatorCallExpr":
+                        # an object known to own nothing releases nothing
+                        for bb in f.cfg["blocks"]:
+                            c_ = bb.get("cond")
+                            if c_ is not None and f.text(c_).replace("this.", "").replace(" ", "") in ("isUndefined()", "(isUndefined())") and \
+                                    dataflow.dominated_by_branch(f, e["n"], c_, True):
+                                return None
+                        return f.text(e["n"])
+                    if rc is not None:
+                        rn = f.nodes[f.strip(rc)]
+                        if rn["k"] in ("MemberExpr", "CXXDependentScopeMemberExpr") and nm in ("Reset", "Clear", "reset"):
+                            base = rn.get("ch", [])
+                            if not base or f.nodes[f.strip(base[0])]["k"] == "CXXThisExpr":
+                                return f.text(e["n"])
+                    return None
+                it = 0
+                while work:
+                    it += 1
+                    if it > 3000:
+                        break
+                    bid = work.pop()
+                    st = state[bid]
+                    for e in blocks[bid]["el"]:
+                        ev = rel_event(e)
+                        if ev and st is None:
+                            st = ev
+                    for (s_, kind, payload) in dataflow.successors(f, blocks[bid]):
+                        if s_ not in state:
+                            state[s_] = st
+                            work.append(s_)
+                        elif state[s_] is None and st is not None:
+                            state[s_] = st
+                            work.append(s_)
+                for bid, st in state.items():
+                    for e in blocks[bid]["el"]:
+                        if "n" in e and not e.get("k"):
+                            n = f.nodes[e["n"]]
+                            if st is not None and n["k"] == "DeclRefExpr" and n.get("d") == p["d"]:
+                                hits.append((e["n"], st))
+                            ev = rel_event(e)
+                            if ev and st is None:
+                                st = ev
+                if hits:
+                    nid, why = hits[0]
+                    par = f.parents().get(nid, nid)
+                    r.ob(f.sig, "parameter `%s`" % p["n"], False, "`%s` is read at %s (`%s`) after `%s` released what this object owns; when `%s` is an element of this object "
+                         "(x = x[i]) it has just been destroyed" % (p["n"], f.loc(nid), f.text(par)[:50], why, p["n"]), f.loc(nid))
+                else:
+                    r.ob(f.sig, "parameter `%s`" % p["n"], True, "every read of `%s` precedes the release of this object's own contents" % p["n"], "%s:%d" % (f.file.split("/Include/")[-1], f.line))
+    return r
+
+
+def rule_fresh_slot(ctx, m):
+    """O11: Memory::Initialize(&(item->Value) ...) constructs in place; the slot must be raw storage, i.e. `item` must come from
+    insert() on every path reaching the call -- an item found by find() holds a live value that would be overwritten unreleased."""
+    r = Rule("O11-fresh", "a value is constructed in place only in a slot that insert() has just created", floor=4)
+    for f in m.functions:
+        if f.inst or f.cls not in ("Qentem::HArray", "Qentem::HList", "Qentem::HashTable") or not f.cfg:
+            continue
+        sites = []
+        for c in astq.calls(f, "Initialize"):
+            a = f.call_args(c)
+            if not a:
+                continue
+            an = f.nodes[f.strip(a[0])]
+            if an["k"] == "UnaryOperator" and an["op"] == "&":
+                mn = f.nodes[f.strip(an["ch"][0])]
+                if mn["k"] in ("MemberExpr", "CXXDependentScopeMemberExpr") and mn.get("ch"):
+                    bn = f.nodes[f.strip(mn["ch"][0])]
+                    if bn["k"] == "DeclRefExpr" and bn.get("dk") == "var":
+                        sites.append((c, bn["d"], bn["n"]))
+        if not sites:
+            continue
+        ctx.note_fn(f)
+        blocks = f.blocks()
+
+        def kind_of(nid):
+            s = f.strip_casts(nid)
+            n = f.nodes[s]
+            if n["k"] in ("CallExpr", "CXXMemberCallExpr"):
+                nm = f.call_simple_name(s)
+                return nm if nm in ("insert", "find") else "other:" + (nm or "?")
+            if f.text(s).replace(" ", "").replace("this.", "") in ("(Storage()+Size())", "Storage()+Size()"):
+                return "insert"   # the first slot past the used ones: raw storage
+            return "other"
+
+        def step(st, e):
+            if "n" not in e or e.get("k"):
+                return st
+            n = f.nodes[e["n"]]
+            if n["k"] == "DeclStmt":
+                for d in n["decls"]:
+                    if "d" in d and d.get("tk") == "ptr":
+                        st = dict(st)
+                        st[d["d"]] = frozenset([kind_of(d["init"])]) if d.get("init", -1) >= 0 else frozenset(["uninit"])
+            elif n["k"] == "BinaryOperator" and n["op"] == "=":
+                lhs = f.nodes[f.strip(n["ch"][0])]
+                if lhs["k"] == "DeclRefExpr" and lhs.get("tk") == "ptr":
+                    st = dict(st)
+                    st[lhs["d"]] = frozenset([kind_of(n["ch"][1])])
+            return st
+        states = {f.cfg["entry"]: {}}
+        work = [f.cfg["entry"]]
+        it = 0
+        while work:
+            it += 1
+            if it > 3000:
+                break
+            bid = work.pop()
+            st = states[bid]
+            for e in blocks[bid]["el"]:
+                st = step(st, e)
+            for (s_, kind, payload) in dataflow.successors(f, blocks[bid]):
+                st2 = st
+                # on the edge `item == nullptr` true / `item != nullptr` false the found item is gone
+                if kind in ("true", "false") and payload is not None:
+                    cn = f.nodes[f.strip(payload)]
+                    if cn["k"] == "BinaryOperator" and cn["op"] in ("==", "!="):
+                        a_, b_ = f.nodes[f.strip(cn["ch"][0])], f.nodes[f.strip_casts(cn["ch"][1])]
+                        if a_["k"] == "DeclRefExpr" and b_["k"] in ("CXXNullPtrLiteralExpr", "GNUNullExpr") and ((cn["op"] == "==") == (kind == "true")):
+                            st2 = dict(st)
+                            st2[a_["d"]] = frozenset(["null"])
+                old = states.get(s_)
+                if old is None:
+                    states[s_] = dict(st2)
+                    work.append(s_)
+                else:
+                    new = dict(old)
+                    ch = False
+                    for k_, v_ in st2.items():
+                        if not v_ <= new.get(k_, frozenset()):
+                            new[k_] = new.get(k_, frozenset()) | v_
+                            ch = True
+                    if ch:
+                        states[s_] = new
+                        work.append(s_)
+        for (c, d, name) in sites:
+            bid = dataflow.block_of(f, c)
+            st = states.get(bid, {})
+            for e in blocks[bid]["el"]:
+                if e.get("n") == c:
+                    break
+                st = step(st, e)
+            defs = st.get(d, frozenset(["?"]))
+            ok = defs <= frozenset(["insert"])
+            r.ob(f.sig, f.text(c)[:60], ok, "`%s` comes from %s here%s" % (name, sorted(defs), "" if ok else
+                 ": a slot returned by find() holds a live value; constructing over it drops what that value owns without releasing it"), f.loc(c))
+    return r
